@@ -211,12 +211,12 @@ Qed.
 Lemma brier_score_is_mse f o rd pd w :
   Forall val01 (lvalues f) -> Forall valbin (lvalues o) ->
   brier_score_m f o rd pd w true = mse_m f o rd pd w.
-Proof. intros Hf Ho. unfold brier_score_m. destruct (proj2 (brier_guard_spec f o) (conj Hf Ho)).
+Proof. intros Hf Ho. unfold brier_score_m, brier_score_with, mse_m. destruct (proj2 (brier_guard_spec f o) (conj Hf Ho)).
   assert (E : brier_guard f o = None) by (apply brier_guard_spec; auto). rewrite E. reflexivity. Qed.
 Lemma brier_score_rejects f o rd pd w :
   ~ (Forall val01 (lvalues f) /\ Forall valbin (lvalues o)) ->
   brier_score_m f o rd pd w true = Err ValueError.
-Proof. intro H. unfold brier_score_m. destruct (brier_guard f o) as [e|] eqn:E.
+Proof. intro H. unfold brier_score_m, brier_score_with. destruct (brier_guard f o) as [e|] eqn:E.
   - unfold brier_guard in E. destruct (_ || _); [inversion E; reflexivity|].
     destruct (negb _); inversion E. reflexivity.
   - exfalso. apply H. apply brier_guard_spec. auto. Qed.
@@ -229,4 +229,8 @@ Lemma mse_m_value f o rd pd w r e :
   exists R, gather (ldims f) (ldims o) None rd pd DNone = Ok R /\
     let s := apply_weights w (lzip gen_c13_sqerr f o) in
     lget r e = nanmean (map (lget s) (envs (lsize s) (dinter (ldims s) R) e)).
-Proof. unfold mse_m. destruct (gather _ _ _ _ _ _) as [R|]; simpl; intro H; inversion H. exists R. split; auto. Qed.
+Proof. unfold mse_m, mse_with. destruct (gather _ _ _ _ _ _) as [R|]; simpl; intro H; inversion H. exists R. split; auto. Qed.
+
+(* the specification kernel used by the check's property predicate agrees with the regenerated kernel everywhere *)
+Lemma sqerr_spec_x_ok f o : sqerr_spec_x f o =x= gen_c13_sqerr f o.
+Proof. destruct f as [|f|], o as [|o|]; try reflexivity. Qed.
